@@ -4039,7 +4039,7 @@ func (p *Posix) CopyObject(ctx context.Context, input s3response.CopyObjectInput
 					return nil, fmt.Errorf("initialize hash reader: %w", err)
 				}
 
-				_, err = hashReader.Read(nil)
+				_, err = io.Copy(io.Discard, hashReader)
 				if err != nil {
 					return nil, fmt.Errorf("read err: %w", err)
 				}
